@@ -30,8 +30,9 @@ class C08(CFGProp):
     def check(self, case, ref, ctx):
         scheme = ctx.variant or "plain"
         lang = ref["lang"]
+        share = {}
         for via, wl in (("full", W4), ("prods", list(reversed(W3)))):
-            g = ctx.call(O.build_cfg, case, scheme, via)
+            g = ctx.call(O.build_cfg, case, scheme, via, share)
             if not ctx.returns(g, "C08.build", via=via):
                 continue
             g = g.value
